@@ -25,6 +25,10 @@ import HcipyVerif.Model.Coronagraph
 * `vvrun [history wl] [table wl] [table ch] [table sh] C2 S2 PLUS` → one chromatic vortex object driven through a history of
   wavelengths (`chromRun`, parameter = table lookup `wl ↦ (cos δ/2, sin δ/2)`): `ok [vortexTerm entries] [Re V e] [Im V e] [leak per step] [leak per step, shared-instance variant]
   [Re J per step, 4 entries each] [Im J …] [co re] [co im] [cross re] [cross im]` (`vvLeak`, `retarderJones`, `coPolar`, `crossPolar`)
+* `vvset C2 S2 PLUS W1 PARAM (use wl | PARAM)*` with `PARAM = const ch sh | fn [twl] [tch] [tsh]` → one vortex object constructed with
+  the first parameter and driven through a history of uses and assignments (+ `clear_cache()`), `setRun`:
+  `ok [leak per use] [leak per use, kind-frozen-at-construction variant, dummy wavelength W1] [leak per use, setter-without-clear variant]
+  [ch per use] [sh per use]`
 -/
 namespace HcipyVerif.Driver.C09
 open HcipyVerif.Proto HcipyVerif.Coronagraph
@@ -95,6 +99,53 @@ def vvRunOp (hist twl tch tsh : List Rat) (c2 s2 : Rat) (plus : Bool) : String :
   let V := vortexTerm (rc c2) (rc s2)
   let ve := V.apply (circ i plus)
   s!"ok {showRatList [V.j11.re, V.j12.re, V.j21.re, V.j22.re]} {showRatList [ve.1.re, ve.2.re]} {showRatList [ve.1.im, ve.2.im]} {showRatList (used.map leak)} {showRatList (shared.map leak)} {showRatList (ents.map (·.re))} {showRatList (ents.map (·.im))} {showRatList (co.map (·.re))} {showRatList (co.map (·.im))} {showRatList (cr.map (·.re))} {showRatList (cr.map (·.im))}"
+
+/-- events of op `vvset`: `const ch sh` | `fn [twl] [tch] [tsh]` | `use wl` -/
+def parseParam? : List String → Option (Param Rat (Rat × Rat) × List String)
+  | "const" :: ch :: sh :: rest =>
+    match parseRat? ch, parseRat? sh with
+    | some ch, some sh => some (.const (ch, sh), rest)
+    | _, _ => none
+  | "fn" :: twl :: tch :: tsh :: rest =>
+    match parseRatList? twl, parseRatList? tch, parseRatList? tsh with
+    | some twl, some tch, some tsh =>
+      if twl.length != tch.length || twl.length != tsh.length then none else
+      let table := twl.zip (tch.zip tsh)
+      some (.fn (fun wl => ((table.find? (fun e => e.1 == wl)).map (·.2)).getD (0, 0)), rest)
+    | _, _, _ => none
+  | _ => none
+
+def parseEvs? (fuel : Nat) (toks : List String) : Option (List (Ev Rat (Rat × Rat))) :=
+  match fuel with
+  | 0 => none
+  | fuel + 1 =>
+    match toks with
+    | [] => some []
+    | "use" :: wl :: rest =>
+      match parseRat? wl, parseEvs? fuel rest with
+      | some wl, some evs => some (.use wl :: evs)
+      | _, _ => none
+    | toks =>
+      match parseParam? toks with
+      | some (p, rest) =>
+        match parseEvs? fuel rest with
+        | some evs => some (.set p :: evs)
+        | none => none
+      | none => none
+
+def vvSetOp (c2 s2 : Rat) (plus : Bool) (w1 : Rat) (toks : List String) : String :=
+  match parseParam? toks with
+  | none => "bad-op"
+  | some (p0, rest) =>
+    match parseEvs? (rest.length + 1) rest with
+    | none => "bad-op"
+    | some evs =>
+      let i : CRat := ⟨0, 1⟩
+      let leak (p : Rat × Rat) : Rat := (vvLeak CRat.conj i (rc p.1) (rc p.2) (rc c2) (rc s2) plus).re
+      let used := setRun p0 evs
+      let frozen := setRunFrozen w1 p0 evs
+      let noclear := setRunNoClear p0 evs
+      s!"ok {showRatList (used.map leak)} {showRatList (frozen.map leak)} {showRatList (noclear.map leak)} {showRatList (used.map (·.1))} {showRatList (used.map (·.2))}"
 
 def lyotOp (occ back : Bool) (fre fim bre bim mre mim sre sim ere eim : String) : String :=
   match parseRatLists? fre, parseRatLists? fim, parseRatLists? bre, parseRatLists? bim,
@@ -323,6 +374,11 @@ def step (st : St) : List String → St × String
     | some hist, some twl, some tch, some tsh, some c2, some s2, some plus =>
       if plus > 1 then (st, "bad-op") else (st, vvRunOp hist twl tch tsh c2 s2 (plus == 1))
     | _, _, _, _, _, _, _ => (st, "bad-op")
+  | "vvset" :: c2 :: s2 :: plus :: w1 :: rest =>
+    match parseRat? c2, parseRat? s2, parseNat? plus, parseRat? w1 with
+    | some c2, some s2, some plus, some w1 =>
+      if plus > 1 then (st, "bad-op") else (st, vvSetOp c2 s2 (plus == 1) w1 rest)
+    | _, _, _, _ => (st, "bad-op")
   | "msalg" :: rest => (st, msAlgOp false rest)
   | "msalgb" :: rest => (st, msAlgOp true rest)
   | "msteleb" :: rest => (st, msTeleB rest)
